@@ -203,10 +203,18 @@ def run(ctx):
                 allprob.append((sig + ":multi-batch", what, dict(dbase, type=typ, opts=opts, **rq), True))
         shutil.rmtree(dsess.dir, ignore_errors=True)
     for mi in range(nmodels):
-        m = ctx.replay_model or lc.gen_model(rng, max_order=ctx.pick(5, 6), max_vocab=ctx.pick(6, 20))
+        # every 8th model has one context with hundreds of left extensions (a child range spanning several blocks of ArrayBhiksha's
+        # offset table) and 4-grams reached through small nodes: a state that lost "x a b" cannot reach "x a b d" (seeded change C02-15)
+        hub = (mi % 8 == 5) and not ctx.replay_model
+        m = ctx.replay_model or lc.gen_model(rng, max_order=ctx.pick(5, 6), max_vocab=ctx.pick(6, 20), hub=hub)
         sess = lc.Session(ctx, m, "m%d" % mi)
         # many short histories over a small vocabulary: plenty of colliding states
         qs = lc.gen_queries(rng, m, ctx.pick(60, 200))
+        if hub:
+            top = [k for k in sorted(m.grams) if len(k) == m.order]
+            rng.shuffle(top)
+            qs += [(rng.below(2), list(reversed(k))) for k in top[:ctx.pick(150, 600)]]
+            stats["hub_models"] = stats.get("hub_models", 0) + 1
         base = {"arpa": m.arpa_bytes().decode("latin-1"), "vocab": m.vocab_bytes().decode("latin-1")}
         for typ in lc.TYPES:
             r = sess.run_impl(lmq, typ, qs)
